@@ -73,15 +73,14 @@ def applyFrames : Peer → List (List (Nat × Nat)) → Except Verdict Peer
 /-- what a caller observes of a connection whose first SETTINGS frame is `f` and that then serves a
 request with a header block of `blockLen` bytes (no header priority): an error (the connection is
 torn down with that code) or a response, the first HEADERS frame of the request carrying
-`min blockLen maxFrameSize` bytes. A concurrency limit of 0 never lets the request start (the
-client's own timeout ends the call). -/
+`min blockLen maxFrameSize` bytes. (MAX_CONCURRENT_STREAMS has no part in this: a connection that
+cannot take another stream is passed over for a new one, and the client speaks before it has seen
+the peer's SETTINGS; a limit of 0 is oracle-judged in the lane.) -/
 def callOutcome (f : List (Nat × Nat)) (blockLen : Nat) : String :=
   match applyFrame {} f with
   | .error .protocolError => "conn-error 1"
   | .error .flowControlError => "conn-error 3"
   | .error .accept => "bad-op"
-  | .ok p =>
-    if p.maxConcurrent = 0 then "blocked"
-    else "response first=" ++ toString (min blockLen p.maxFrameSize)
+  | .ok p => "response first=" ++ toString (min blockLen p.maxFrameSize)
 
 end Req.C07.H2Settings
